@@ -22,7 +22,6 @@ BAD_PIDS = [-1, -7, 5, 2 ** 31, 2 ** 64]
 STARTS = [0, 1, 100, 101, 102, 5000, 2 ** 31, 2 ** 40 + 1]
 SIGS = [0, 1, 2, 9, 15, 17, 18, 19, 64]
 SETTER_KINDS = ["signal", "suspend", "resume", "terminate", "kill", "nice", "ionice", "rlimit", "affinity"]
-ELIGIBLE = [0, 1, 2, 3]
 
 TRUSTED = ["correspondence harness props/_proc_common.py + pv/ (fake /proc tree; os.kill, cext_posix.setpriority, "
            "cext.proc_ioprio_set, cext.proc_cpu_affinity_set, resource.prlimit replaced by recorders that answer ESRCH "
@@ -33,6 +32,8 @@ ASSUMPTIONS = ["each psutil call is atomic with respect to kernel events (a PID 
                "two starts of one PID never carry the same start tick (psutil's documented assumption; hypothesis wf_hist)",
                "identity float starttime/CLK_TCK is an injective image of the tick count for ticks < 2^52; the model keeps ticks",
                "CPython tuple hashing does not collide on the sampled identities",
+               "the simulated kernel never denies reading /proc/<pid>/stat: the creation-time oracle of the model is fixed to true, so "
+               "objects with _ident = (pid, None) and the 'creation time unreadable' branch of is_running() are not exercised",
                "EPERM answers of the kernel (AccessDenied) and the non-Linux branches of __eq__/_get_ident/send_signal are outside the model"]
 
 
@@ -361,6 +362,11 @@ def group_kill(effs):
     return False
 
 
+def _any_cpus(ans):
+    return [ans[0], [[T("Affinity", c["a"][0], "any") if isinstance(c, dict) and c.get("t") == "Affinity" else c, i]
+                     for c, i in ans[1]]]
+
+
 def judge_history(case, coq, impl, spec_kinds, what):
     """spec_kinds: event kinds whose demanded answer belongs to the property being checked."""
     from pv.core import Verdict
@@ -374,7 +380,11 @@ def judge_history(case, coq, impl, spec_kinds, what):
             return Verdict("violation", "step %d %r: os.kill called with pid <= 0: %r" % (i, e, got[1]))
         allowed = coq["spec"][i]
         if allowed is not None and e[0] in spec_kinds:
-            if [got[0], delivered(got[1])] not in allowed:
+            mine = [got[0], delivered(got[1])]
+            if e[0] == "set" and e[2][0] == "affinity" and not e[2][1]:
+                # which CPUs an empty list stands for is C18's subject: here only "an affinity request to this PID"
+                mine, allowed = _any_cpus(mine), [_any_cpus(a) for a in allowed]
+            if mine not in allowed:
                 return Verdict("violation", "step %d %r: %s: got %r, demanded one of %r" % (i, e, what, got, allowed))
         if got != coq["model"][i]:
             return Verdict("corr", "step %d %r: implementation %r, model %r" % (i, e, got, coq["model"][i]))
